@@ -178,8 +178,9 @@ func (a *Analysis) CheckC08(rep *Report) {
 			fe := tl.EncMain.Layout.Fields[i]
 			nf++
 			key := fmt.Sprintf("%s#%d(%s)", ct.Name, i, fd.Name)
-			rep.Ob("R2-lossless-decode-path", key, len(allValueOps(fd)) == 0, a.P.Pos(fd.Pos), "decoded value is transformed: "+strings.Join(allValueOps(fd), "; "))
-			rep.Ob("R2-lossless-encode-path", key, len(allValueOps(fe)) == 0, a.P.Pos(fe.Pos), "encoded value is transformed: "+strings.Join(allValueOps(fe), "; "))
+			dops, eops := opsOnAllPaths(tl.R.Dec, i), opsOnAllPaths(tl.EncAll, i)
+			rep.Ob("R2-lossless-decode-path", key, len(dops) == 0, a.P.Pos(fd.Pos), "decoded value is transformed: "+strings.Join(dops, "; "))
+			rep.Ob("R2-lossless-encode-path", key, len(eops) == 0, a.P.Pos(fe.Pos), "encoded value is transformed: "+strings.Join(eops, "; "))
 			for _, pair := range [][2]*FieldLayout{{fe, fd}, {fe.Elem, fd.Elem}} {
 				e, d := pair[0], pair[1]
 				if e == nil || d == nil || e.Kind != "fixed" {
@@ -435,7 +436,7 @@ func (a *Analysis) CheckC15(rep *Report) {
 							}
 						}
 					}
-					rep.Ob("D2-branch-on-old-state", ct.Name+":"+c.V.Pretty(), okNil, a.P.Pos(c.Pos), "decoding branches on the receiver's previous content: "+c.String())
+					rep.Ob("D2-branch-on-old-state", ct.Name+":"+c.V.Pretty(), okNil, a.condPos(c, ct.Decode), "decoding branches on the receiver's previous content: "+c.String())
 				}
 			}
 			// D3
@@ -644,4 +645,15 @@ func (a *Analysis) CheckC16(rep *Report) {
 	}
 	rep.Floor("codec_types", len(a.U.Types), goldenFloor("types", 170))
 	rep.Sample(map[string]interface{}{"alias_sources": []string{"(*bytes.Buffer).Bytes", "(*bytes.Buffer).Next", "sub-slices and Trim* of those"}, "copying": []string{"string(b)", "[]byte(s)", "copy", "binary.Read", "io.ReadFull into make([]byte,n)"}})
+}
+
+// condPos: position of a branch condition (the enclosing function when the instruction carries none).
+func (a *Analysis) condPos(c Cond, fallback *ssa.Function) string {
+	if c.Pos.IsValid() {
+		return a.P.Pos(c.Pos)
+	}
+	if c.Fn != nil && c.Fn.Pos().IsValid() {
+		return a.P.Pos(c.Fn.Pos())
+	}
+	return a.P.Pos(fallback.Pos())
 }
